@@ -2105,7 +2105,15 @@ struct Explorer {
         auto px = v->producer.find(x);
         if (px == v->producer.end() || v->stmts[px->second].phony) continue;
         // only once the dependency has been reported: the statement has a record from an earlier build
-        bool known = s.deps.empty() && s.depfile.empty() ? true : (before.Get(s.id) != nullptr);
+        // (what matters is the record, not the output: a deleted output leaves the depfile / deps-log record behind)
+        bool known = true;
+        if (!s.deps.empty()) {
+          lp::DepsLogModel dlm;
+          if (auto* f = before.Get(kDeps)) dlm = lp::ParseDepsLog(f->data);
+          known = dlm.deps.count(s.id) > 0;
+        } else if (!s.depfile.empty()) {
+          known = before.Get(s.depfile) != nullptr;
+        }
         if (!known) continue;
         for (size_t c2 = 0; c2 < r.cmds.size(); ++c2) {
           if (r.cmds[c2].spec.id() != v->stmts[px->second].id) continue;
@@ -2652,6 +2660,10 @@ struct Explorer {
         s.disk = d;
         s.choices = r.choices;
         s.tainted = content_bad;
+        // the scenario and its twin have parted ways (reported above, known or not): what follows would compare two
+        // different histories and only repeat the same finding in other words
+        for (auto& v : vs)
+          if (v.clause == "started-before-discovered-producer" || v.clause == "differs-from-declared-twin") s.tainted = true;
         s.expand = !op.no_expand && !r.hang && !r.horizon;
         s.is_base = success && !content_bad && !edited_during && op.targets.empty() && op.cfg.faults.empty() &&
                     !op.tool && !op.dry_run;
